@@ -92,6 +92,15 @@ Checks(r) ==
          <<"Login",     exact => LoginOK(o, r)>>,
          <<"FramedExact", (exact /\ "framed" \in DOMAIN r) => (Exact(r.framed, r) /\ LoginOK(r.framed, r))>>,
          <<"FramedUniversal", "framed" \in DOMAIN r => (Universal(r.framed, r.line) /\ CounterOK(r.framed, r.line))>>,
+         \* the same line seen by ONE long-lived processor (one registry, one event sink for the whole run, as in the
+         \* daemon): what the line adds is judged by the same predicates - no state may leak from line to line
+         <<"StreamExact", (exact /\ "stream" \in DOMAIN r) => (Exact(r.stream, r) /\ LoginOK(r.stream, r))>>,
+         <<"StreamUniversal", "stream" \in DOMAIN r => Universal(r.stream, r.line)>>,
+         <<"StreamCounter", "stream" \in DOMAIN r => CounterOK(r.stream, r.line)>>,
+         \* a login handed to the correlator earlier keeps the event it was handed over with (the correlator renders the
+         \* identity of later events from it: C01 rests on it)
+         <<"StreamLoginStable", "stream" \in DOMAIN r => r.stream.stable>>,
+         <<"StreamPeer", (r.fam = "hostile" /\ "stream" \in DOMAIN r) => PeerOK(r.stream, r)>>,
          <<"Peer",      r.fam = "hostile" => PeerOK(o, r)>>,
          <<"FramedPeer", (r.fam = "hostile" /\ "framed" \in DOMAIN r) => PeerOK(r.framed, r)>> }
 
